@@ -258,6 +258,12 @@ func (w *World) nf(v ssa.Value, depth int) string {
 		return "lookup(" + w.nf(x.X, depth+1) + "," + w.nf(x.Index, depth+1) + ")"
 	case *ssa.IndexAddr:
 		return "&index(" + w.nf(x.X, depth+1) + "," + w.nf(x.Index, depth+1) + ")"
+	case *ssa.Index:
+		return "index(" + w.nf(x.X, depth+1) + "," + w.nf(x.Index, depth+1) + ")"
+	case *ssa.MakeClosure:
+		return "closure(" + w.nf(x.Fn, depth+1) + ")"
+	case *ssa.Builtin:
+		return "builtin." + x.Name()
 	case *ssa.FreeVar:
 		return "free:" + x.Name()
 	case *ssa.MakeSlice:
